@@ -16,13 +16,13 @@ static u64 nscn;
 static int elf_dummy;
 
 /* ---- libelf contract stubs (also used, unchanged, by the native replay against the real object) ---- */
-struct struct_Elf_Scn *elf_nextscn(void *elf, void *cur)
+void *elf_nextscn(void *elf, void *cur)
 {
   if (cur == 0) return nscn > 0 ? (struct struct_Elf_Scn *)&scn[0] : 0;
   u64 i = (u64)((struct sc *)cur - scn);
   return i + 1 < nscn ? (struct struct_Elf_Scn *)&scn[i + 1] : 0;
 }
-struct struct_Elf64_Shdr *gelf_getshdr(void *s, void *dst_)
+void *gelf_getshdr(void *s, void *dst_)
 {
   struct struct_Elf64_Shdr *dst = dst_;
   struct sc *p = s;
